@@ -19,7 +19,13 @@ import (
 func aolRules(p *Prog, r *Report, clause string, want func(tag string) bool) *aolModel {
 	m := buildAolModel(p)
 	em := func(tag string, ok bool, key, rule, site, whyOK, whyFail string, w ...interface{}) {
-		if want(tag) {
+		wanted := false
+		for _, t := range strings.Split(tag, "|") {
+			if want(t) {
+				wanted = true
+			}
+		}
+		if wanted {
 			r.Check(ok, key, rule, site, whyOK, whyFail, w...)
 		}
 	}
@@ -307,7 +313,7 @@ func aolRules(p *Prog, r *Report, clause string, want func(tag string) bool) *ao
 					"SetWriter/TotalWriters+1 is not dominated by HasWriter(same key)==false: re-adding double counts and resets the writer entry")
 			} else {
 				w2, ok2 := m.hasGuard(h, wm.cs.Instr, "Writer", wk, true)
-				em("counter", ok2, kp("GUARD", hn+"→"+FuncName(wm.acc.Fn)+"#HasWriter=true"), "writer counter is decremented only when the writer exists", p.Pos(wm.cs.Instr.Pos()), w2,
+				em("counter|auth", ok2, kp("GUARD", hn+"→"+FuncName(wm.acc.Fn)+"#HasWriter=true"), "a writer is removed (and the counter decremented) only when that writer is listed: removal of a listed writer must be possible and take effect", p.Pos(wm.cs.Instr.Pos()), w2,
 					"RemoveWriter/TotalWriters-1 is not dominated by HasWriter(same key)==true")
 			}
 			if topicSt != nil {
